@@ -261,6 +261,16 @@ def run(ctx):
             r.ok("%s: writes only the I/O objects it creates" % m.short)
     if n12 == 0:
         r.vacuous_ok = True
+    # ---------------------------------------------------------------- R16
+    r = ctx.rule("C17-R16", "RESET", "'rendering a component twice gives identical output': the label alignment a layout computes is computed from this render's paragraphs only - "
+                 "LabelAlignment.align resets the offset it accumulates before it reads it (an alignment object is re-used when a layout is rendered again)", reference=1)
+    la = ctx.p.classes.get("clikit.ui.alignment.label_alignment.LabelAlignment")
+    if la is None or "align" not in la.methods:
+        r.vacuous_ok = True
+        r.note("LabelAlignment.align not present")
+    else:
+        scratch_rule(ctx, r, la.methods["align"])
+
     # ---------------------------------------------------------------- R14
     r = ctx.rule("C17-R14", "ORDER", "'creating a predefined object twice yields the same characters': a lazily created shared object is published in its class slot only when it is "
                  "complete - after the store into the slot the factory does not go on setting the object's attributes (a second caller, or a caller arriving after an interrupted "
